@@ -99,7 +99,7 @@ KILLER_PERIOD = 1.0     # `asyncio.timeout(1.0)` between two rounds of the daemo
 DELTA_START = 2.0      # … and to start up (discovery + first listing)
 DELTA = 1.0            # virtual seconds the operator is given to react to an event (measured: a few 1/64 s)
 SPIN_LIMIT = 20000
-CALL_SPIN_LIMIT = 3000
+CALL_SPIN_LIMIT = 800
 
 
 # =================================================================================================
@@ -135,6 +135,7 @@ class Recorder:
         self.spawn_ctx: dict | None = None
         self.proto_cancels: dict[int, int] = {}
         self._spin_iter, self._spin_n = -1, 0
+        self._inst_t, self._inst_n, self.damped = -1.0, 0, 0
 
     def log(self, e: str, **kw: Any) -> dict:
         from ..sim import runner
@@ -146,13 +147,21 @@ class Recorder:
         from ..sim import runner
         return runner._incarnation.get() in self.sim.obs.dead
 
-    def note_call(self) -> None:
+    def note_call(self) -> bool:
         """Generic spin detector: the same daemon/timer function entered thousands of times within ONE iteration of
-        the event loop means its guarding coroutine retries it without ever suspending."""
+        the event loop means its guarding coroutine retries it without ever suspending.
+        Returns True when the calls pile up at one virtual instant although the loop does get control (a zero-delay
+        retry that yields, e.g. after a repair of F12): under virtual time that would never end, so the scripted
+        handler then takes 1/64 s per call (a harness artefact, counted in the trace)."""
         loop = asyncio.get_running_loop()
         it = getattr(loop, "iterations", None)
         if it is None:
-            return
+            return False
+        now = self.sim.now()
+        if self._inst_t != now:
+            self._inst_t, self._inst_n = now, 0
+        if self._spin_iter != it:
+            self._inst_n += 1            # calls at this virtual instant that came in DIFFERENT loop iterations
         if self._spin_iter == it:
             self._spin_n += 1
             if self._spin_n > CALL_SPIN_LIMIT:
@@ -170,6 +179,10 @@ class Recorder:
                 os._exit(3)
         else:
             self._spin_iter, self._spin_n = it, 1
+        if self._inst_n > 400 or self.damped:
+            self.damped += 1         # sticky: from now on every scripted call takes 1/64 s
+            return True
+        return False
 
     # ---- the scripted daemon / timer functions ---------------------------------------------------
     def make_handler(self, h: dict) -> Any:
@@ -197,7 +210,8 @@ class Recorder:
             stopped = kwargs["stopped"]
             rec = self._call_rec(h, kwargs)
             rec["mode"] = mode
-            self.note_call()
+            if self.note_call():
+                await asyncio.sleep(1.0 / 64)
             try:
                 if mode == "retry":      # never awaits; asks to be retried after `delay` (TemporaryError)
                     import kopf
@@ -249,7 +263,8 @@ class Recorder:
             n = self.sim.obs.counters.get(key, 0)
             self.sim.obs.counters[key] = n + 1
             rec["n"] = n
-            self.note_call()
+            if self.note_call():
+                await asyncio.sleep(1.0 / 64)
             try:
                 if not h.get("noawait"):
                     await asyncio.sleep(dur)       # an async handler that awaits; with "noawait" the run never yields
@@ -600,6 +615,7 @@ def run_scenario(sc: dict, wall_limit: float = 60.0) -> dict:
                 "history": {k: [{"t": v["t"], "event": v["event"], "meta": _slim_meta(v["body"])} for v in vs]
                             for k, vs in (tr.get("history") or {}).items()},
                 "ev": [{k: v for k, v in e.items()} for e in sim.rec.ev], "calls": sim.rec.calls,
+                "damped_calls": sim.rec.damped,
                 "cycle_errors": [{"i": c["i"], "error": c["error"], "t": c["t0"]} for c in tr.get("cycles", []) if c.get("error")],
                 }
         return json.loads(json.dumps(slim, default=repr))
@@ -715,7 +731,8 @@ def gen_scenario(rng: Any, seed: int) -> dict:
                 h["script"] = [rng.choice(["ok", ["temp", 1.0]]) for _ in range(3)]
             if rng.random() < 0.12:       # an async handler that never awaits: the run does not yield
                 h["noawait"] = True
-                h["default"] = rng.choice(["ok", ["temp", 0.5], ["temp", 1.0], ["temp", 1.0 / 64], ["temp", 0], ["temp", None]])
+                h["default"] = rng.choice(["ok", "ok", ["temp", 0.5], ["temp", 1.0], ["temp", 1.0 / 64], ["temp", 0.25], ["temp", 2.0],
+                                           ["temp", 0], ["temp", None]])
                 h.pop("script", None)
         handlers.append(h)
     if rng.random() < 0.5:
@@ -1558,6 +1575,19 @@ def extract(ctx: Ctx) -> None:
     leanio.write_generated("Kopf/Extracted/C09.lean", out)
 
 
+def loops_yield_each_iteration(tree: ast.AST | None = None) -> bool:
+    """True when the retry loops of both `_timer` and `_daemon` contain an unconditional `await asyncio.sleep(0)` at the
+    top level of their body (a repair of F12): then every run of the micro-step models counts as yielding."""
+    if tree is None:
+        tree = pyextract.parse_file(_repo() / "kopf/_core/engines/daemons.py")
+    ok = []
+    for name, test in (("_timer", "not stopper.is_set()"), ("_daemon", "not stopper.is_set() and (not state.done)")):
+        fn = pyextract.find_def(tree, name)
+        loops = [n for n in ast.walk(fn) if isinstance(n, ast.While) and pyextract.norm(n.test) == test]
+        ok.append(len(loops) == 1 and any(pyextract.norm(st) == "await asyncio.sleep(0)" for st in loops[0].body))
+    return all(ok)
+
+
 def timer_loop_guarded(tree: ast.AST | None = None) -> bool:
     """Reads the after-run idle loop of `_timer` from the source under test."""
     if tree is None:
@@ -1718,8 +1748,14 @@ def run(ctx: Ctx) -> None:
                                     "end": 5.0, "settings": {}}))
     mres = _pool.run_many([m[2] for m in micro], wall=WALL, batch=1)
     mreq = []
+    try:
+        always_yield = loops_yield_each_iteration()
+    except ExtractError:
+        always_yield = False
+    ctx.extra["retry_loops_yield_each_iteration_in_tree"] = always_yield
     for kind, delay, _sc in micro:
-        out = {"done": delay == "ok", "failed": False, "errDelay": 0 if delay in (None, "ok") else _ticks(float(delay)), "yields": False}
+        out = {"done": delay == "ok", "failed": False, "errDelay": 0 if delay in (None, "ok") else _ticks(float(delay)),
+               "yields": always_yield}
         env = {"now": 100, "stop": False, "idleReset": 0}
         if kind == "timer":
             mreq.append(["C09.timer", {"cfg": {"initialDelay": None, "idle": None, "interval": 64, "sharp": False, "guarded": bool(guarded)},
